@@ -28,7 +28,9 @@ Kinds == << "load-result",         \* loadConfig succeeded/failed differently fr
             "relay-interrupted",     \* a connection relaying before the reload did not run to completion
             \* process level (real binary, /metrics endpoint)
             "client-exposed",        \* C20: the exposition contains the client's IP address or port
-            "process-panic" >>       \* C18: the process panicked or died
+            "process-panic",         \* C18: the process panicked or died
+            \* C14 through the server's wiring (mode "natlife")
+            "nat-lifetime" >>        \* an association lived shorter than the configured -udptimeout, or was not reclaimed in bounded time
 NK == Len(Kinds)
 
 VARIABLES l, good, vio, nscen, nprobe, cfgAt, ndrift
@@ -61,6 +63,9 @@ TrProbe == /\ Is("Probe")
                    \cup (IF \E x \in ToSet(E.unhandled) : <<x[1], x[2]>> \in ListeningOf(good) THEN {"connection-unhandled"} ELSE {})
                    \* more runConfig goroutines than generations that may run (how a live generation is run is the code's business)
                    \cup (IF E.runners > (IF good = NoCfg THEN 0 ELSE 1) THEN {"leftover-runner"} ELSE {})
+                   \* every service of the configuration, in either format, runs with the process's NAT timeout: an association
+                   \* opened by one datagram is reported removed no earlier than that and within bounded time after it
+                   \cup (IF \E x \in ToSet(E.natlife) : ~NatLifeOK(x[3], E.natms, E.natslack) THEN {"nat-lifetime"} ELSE {})
                    \cup {})
            /\ nprobe' = nprobe + 1
            /\ UNCHANGED <<good, nscen, cfgAt>>
